@@ -33,3 +33,6 @@ func VerifSha2Fast(db *MySQLDb, user string, authResponse []byte, addr net.Addr)
 func VerifSha2Plain(db *MySQLDb, user string, password string, addr net.Addr) (mysql.Getter, error) {
 	return sha2PlainTextStorage{db: db}.UserEntryWithPassword(nil, user, password, addr)
 }
+
+// VerifMatchesHostPattern exposes the host-pattern matcher used by GetUser (C40 `hp` stream).
+func VerifMatchesHostPattern(host, pattern string) bool { return matchesHostPattern(host, pattern) }
